@@ -6,11 +6,9 @@
 package main
 
 import (
-	"crypto/ecdh"
 	"fmt"
 	"os"
 	"sort"
-	"strings"
 	"sync"
 
 	tls "github.com/refraction-networking/utls"
@@ -315,26 +313,13 @@ func runOne(p *hs.PKI, pr hs.Parrot, sc scenario, seed int64) *outcome {
 	return o
 }
 
-func curveOfKey(k *ecdh.PrivateKey) uint16 {
-	if k == nil {
-		return 0
-	}
-	switch k.Curve() {
-	case ecdh.X25519():
-		return uint16(tls.X25519)
-	case ecdh.P256():
-		return uint16(tls.CurveP256)
-	case ecdh.P384():
-		return uint16(tls.CurveP384)
-	case ecdh.P521():
-		return uint16(tls.CurveP521)
-	}
-	return 0xffff
-}
-
 func run(c *vh.Ctx) {
 	p := hs.SharedPKI()
 	parrots := hs.Parrots()
+	if c.Tier != "quick" {
+		// thorough: reproducible randomized fingerprints as well
+		parrots = append(parrots, hs.RandomizedParrots(12, c.Seed)...)
+	}
 	scs := scenarios()
 	type job struct {
 		pr   hs.Parrot
@@ -400,189 +385,4 @@ func run(c *vh.Ctx) {
 			fmt.Println(k, c.Dist[k])
 		}
 	}
-}
-
-func strs(l []string) string {
-	it := make([]string, len(l))
-	for i, s := range l {
-		it[i] = vh.Str(s)
-	}
-	return vh.List(it)
-}
-func u8s(l []uint8) string {
-	it := make([]string, len(l))
-	for i, s := range l {
-		it[i] = fmt.Sprint(s)
-	}
-	return vh.List(it)
-}
-
-func viewTerm(v tls.VerifClientView, ecdhe uint16, mlkem bool, hasCC bool) string {
-	return fmt.Sprintf("(mkView %s %s %s %s %s %d %s %s %d %d false %d %s)",
-		vh.U16s(v.CipherSuites), vh.U16s(v.SupportedCurves), vh.U16s(v.KeyShareGroups), strs(v.ALPN), vh.Bytes(v.SessionID),
-		v.PSKIdentities, vh.U16s(v.CertCompressionAlgs), vh.Bool(hasCC), v.ConfigMinVersion, v.ConfigMaxVersion, ecdhe, vh.Bool(mlkem))
-}
-
-func wireTerm(w *hs.WireHello) string {
-	return fmt.Sprintf("(mkWire %d %s %s %s %s %s %s %d %s %s %s)",
-		w.LegacyVersion, vh.U16s(w.CipherSuites), u8s(w.CompressionMethods), vh.U16s(w.SupportedGroups), vh.U16s(w.KeyShareGroups),
-		strs(w.ALPN), vh.Bytes(w.SessionID), w.PSKIdentities, vh.U16s(w.CertCompressionAlgs), vh.Bool(w.HasSupportedVers), vh.U16s(w.SupportedVersions))
-}
-
-func emit(c *vh.Ctx, o *outcome, synced map[string]bool, debug bool) {
-	r, s, w := o.res, o.script, o.res.Wire
-	name := o.pr.Name
-	key := o.sc.kind + "/" + name
-	completed := r.ClientErr == nil
-
-	// ---- (c) the property's own oracle, independent of the model ----
-	input := map[string]any{"parrot": name, "kind": o.sc.kind, "variant": o.sc.variant, "forced": o.val,
-		"wire_suites": w.CipherSuites, "wire_groups": w.SupportedGroups, "wire_key_shares": w.KeyShareGroups, "wire_alpn": w.ALPN,
-		"wire_cert_compression": w.CertCompressionAlgs, "wire_psk_identities": w.PSKIdentities}
-	if o.unoff && completed {
-		c.Fail(key, fmt.Sprintf("client completed the handshake although the server's %s (%s) was not offered in its ClientHello", o.sc.kind, o.val),
-			input, map[string]any{"completed": true, "app_data": r.AppData, "version": r.ClientState.Version, "suite": r.ClientState.CipherSuite,
-				"alpn": r.ClientState.NegotiatedProtocol, "curve": r.ClientCurve}, "handshake aborted with an error before application data")
-	}
-	if o.unoff && r.AppData {
-		c.Fail(key, "application data was exchanged after an unoffered "+o.sc.kind, input, "app data echoed", "no application data")
-	}
-	if completed {
-		// whatever the scenario: nothing unoffered may be reported
-		st := r.ClientState
-		if !hs.ContainsU16(w.CipherSuites, st.CipherSuite) {
-			c.Fail("suite-reported/"+name, "ConnectionState.CipherSuite was not offered on the wire", input, st.CipherSuite, w.CipherSuites)
-		}
-		if st.NegotiatedProtocol != "" && !hs.ContainsStr(w.ALPN, st.NegotiatedProtocol) {
-			c.Fail("alpn-reported/"+name, "ConnectionState.NegotiatedProtocol was not offered on the wire", input, st.NegotiatedProtocol, w.ALPN)
-		}
-		if r.ClientCurve != 0 {
-			offered := w.SupportedGroups
-			if st.Version == tls.VersionTLS13 && !r.ClientDidHRR {
-				offered = w.KeyShareGroups
-			}
-			if !hs.ContainsU16(offered, r.ClientCurve) {
-				c.Fail("curve-reported/"+name, "the connection's key-exchange group was not offered on the wire", input, r.ClientCurve, offered)
-			}
-		}
-	}
-
-	// ---- (a) view / wire synchronisation (once per parrot and per distinct hello shape) ----
-	var ecdhe uint16
-	mlkem := false
-	_ = ecdhe
-	hasCC := w.HasCertCompression
-	ks := o.res.KeyShareKeys
-	if ks != nil {
-		ecdhe = curveOfKey(ks.Ecdhe)
-		mlkem = ks.Mlkem != nil
-	}
-	vt := viewTerm(r.View, ecdhe, mlkem, hasCC)
-	wt := wireTerm(w)
-	if !synced[name] {
-		synced[name] = true
-		c.Case("sync", fmt.Sprintf("(CSync %s %s)", vt, wt), "sync/"+name, len(w.KeyShareGroups) > 0, map[string]any{"parrot": name})
-	}
-
-	// ---- (b) decision correspondence ----
-	tr := r.Trace
-	effSuite := tr.Suite
-	if s.Suite != 0 {
-		effSuite = s.Suite
-	}
-	vers := tr.Version
-	alert := 255
-	if r.AlertFromClient >= 0 {
-		alert = r.AlertFromClient
-	}
-	obs := fmt.Sprintf("(mkObs %s %d %d %d %d %s)", vh.Bool(completed), alert, r.ClientState.Version, r.ClientState.CipherSuite, r.ClientCurve, vh.Str(r.ClientState.NegotiatedProtocol))
-	sid := w.SessionID
-	if s.SessionID != nil {
-		sid = s.SessionID
-	}
-	var fl string
-	if vers == tls.VersionTLS13 {
-		share := uint16(tr.Group)
-		if s.Group != 0 {
-			share = uint16(s.Group)
-		}
-		if tr.Group == 0 && s.Group == 0 {
-			// the server failed before choosing (client gone after the HRR): no ServerHello was sent
-			share = 0
-		}
-		psk := "None"
-		if s.SelectedIdentity != nil {
-			psk = fmt.Sprintf("(Some %d)", *s.SelectedIdentity)
-		}
-		hrr := "None"
-		if tr.SentHRR {
-			hs0 := effSuite
-			if hs0 == 0 {
-				hs0 = hrrSuite(w)
-			}
-			hrr = fmt.Sprintf("(Some (mkHello 771 772 0 %s %d %d 0 %d %s None []))", vh.Bytes(sid), hs0, s.CompressionMethod, uint16(s.HRRGroup), vh.Bool(s.HRRCookie != nil))
-		}
-		alpn := s.ALPN
-		if alpn == "" {
-			alpn = serverALPN(w)
-		}
-		cc := "None"
-		if s.CertCompression != 0 {
-			cc = fmt.Sprintf("(Some %d)", s.CertCompression)
-		}
-		shSuite := effSuite
-		fl = fmt.Sprintf("(mkFlight %s (mkHello 771 772 0 %s %d %d %d 0 false %s []) %s %s None %s)", hrr, vh.Bytes(sid), shSuite, s.CompressionMethod, share, psk, vh.Str(alpn), cc, vh.Bool(len(tr.Sent) > 0 && (!tr.SentHRR || len(tr.Sent) > 1)))
-	} else {
-		alpn := s.ALPN
-		if alpn == "" {
-			alpn = serverALPN(w)
-		}
-		curve := uint16(tr.Group)
-		if s.SKXCurve != 0 {
-			curve = uint16(s.SKXCurve)
-		}
-		skx := "None"
-		if curve != 0 {
-			skx = fmt.Sprintf("(Some %d)", curve)
-		}
-		tail := 0
-		if tr.Version < o.sc.maxVers {
-			tail = 1
-		}
-		fl = fmt.Sprintf("(mkFlight None (mkHello %d 0 %d %s %d %d 0 0 false None %s) [] None %s true)", vers, tail, vh.Bytes([]byte("server-chosen-sid")), effSuite, s.CompressionMethod, vh.Str(alpn), skx)
-	}
-	nontrivial := o.unoff || completed
-	ckey := fmt.Sprintf("%s/%s/%s/%s", o.sc.kind, o.sc.variant, name, o.val)
-	c.Case(o.sc.kind+"-"+o.sc.variant, fmt.Sprintf("(CRun %s %s %s %s)", vt, wt, fl, obs), ckey, nontrivial,
-		map[string]any{"parrot": name, "kind": o.sc.kind, "variant": o.sc.variant, "forced": o.val, "completed": completed, "client_error": errStr(r.ClientErr), "alert": alert})
-	if debug {
-		fmt.Printf("%-28s %-14s %-10s val=%-16s unoff=%-5v completed=%-5v app=%-5v alert=%-3d cerr=%q serr=%q\n", name, o.sc.kind, o.sc.variant, o.val, o.unoff, completed, r.AppData, alert, errStr(r.ClientErr), errStr(r.ServerErr))
-	}
-}
-
-// hrrSuite: the suite the scripted server's HRR carries when the server failed before reporting one.
-func hrrSuite(w *hs.WireHello) uint16 {
-	for _, id := range real13 {
-		if hs.ContainsU16(w.CipherSuites, id) {
-			return id
-		}
-	}
-	return 0
-}
-
-// serverALPN: what negotiateALPN picks for server preferences [h2, http/1.1].
-func serverALPN(w *hs.WireHello) string {
-	for _, s := range []string{"h2", "http/1.1"} {
-		if hs.ContainsStr(w.ALPN, s) {
-			return s
-		}
-	}
-	return ""
-}
-
-func errStr(e error) string {
-	if e == nil {
-		return ""
-	}
-	return strings.ReplaceAll(e.Error(), "\n", " ")
 }
